@@ -361,6 +361,17 @@ pure_text, pure_report = t3_pure.generate(args.repo)
 if write_if_changed(os.path.join(args.out, 'Pure.lean'), HDR + pure_text):
     changed.append('Pure')
 report['pure'] = pure_report
+# plug-in generators: tools/gen/extra_<name>.py exposing generate(repo) -> (lean_text, report)
+import glob as _glob
+report['extra'] = {}
+for _path in sorted(_glob.glob(os.path.join(HERE, 'extra_*.py'))):
+    _name = os.path.basename(_path)[:-3]
+    _mod = importlib.import_module(_name)
+    _text, _rep = _mod.generate(args.repo)
+    _lean_name = 'Extra_' + _name[len('extra_'):].capitalize()
+    if write_if_changed(os.path.join(args.out, _lean_name + '.lean'), HDR + _text):
+        changed.append(_lean_name)
+    report['extra'][_name] = _rep
 report['changed'] = changed
 with open(os.path.join(args.out, 'report.json'), 'w') as f:
     json.dump(report, f, indent=1, sort_keys=True)
